@@ -16,6 +16,9 @@ def job(name, props, unwind=26, tier="quick", timeout=900, entries=8):
 job("enc_tw", "C03 C06")
 job("enc_tr1", "C03 C06")
 job("enc_tn", "C03 C06", tier="thorough")
+job("enc_tbig", "C03 C06 C07")   # entry ids in the U16 and U64 classes
+job("cap_tbig_bw", "C06 C07")
+job("rt_tbig_ped_ped", "C01 C07", entries=4, tier="thorough", timeout=3000)
 job("dec_tw_ped", "C08 C04 C02 C11", entries=5)
 job("dec_tw_ped14", "C08 C04 C02 C11", entries=8, tier="thorough", timeout=7200)
 job("dec_tw_buf", "C08 C04 C02", entries=5, tier="thorough", timeout=3000)
